@@ -377,7 +377,7 @@ PROBES = {
             'fault_F1_injected', 'fault_F3_fired', 'fault_F4_fired', 'abandoned_dest'],
     'C02': ['sat_store_checked', 'sat_store_beyond_2_64', 'view_created', 'register_write',
             'fault_F3_fired', 'fault_F4_fired'],
-    'C04': ['c04_write_judged', 'c04_callback_set_judged', 'probe_ovf_and_udf_in_one_write',
+    'C04': ['c04_write_judged', 'c04_callback_set_judged', 'c04_write_beyond_input_domain_judged', 'c04_arith_value_not_exact_not_judged', 'failed_write_dest_kept', 'probe_ovf_and_udf_in_one_write',
             'probe_flag_raising_write', 'probe_inaccuracy_propagated', 'probe_reset_of_raised_flag',
             'register_write', 'fault_F3_fired', 'fault_F4_fired'],
     'C10': ['c10_hop_judged', 'c10_hop_inexact_or_out_of_range', 'c10_hop_all_codes_of_source_format', 'c10_hop_out_of_domain', 'c10_route_resize', 'c10_route_resize_dtype',
